@@ -21,7 +21,9 @@ import itertools
 import json
 import linecache
 import os
+import select
 import sys
+import time
 import types
 
 import numpy as np
@@ -883,10 +885,33 @@ def _expand(job):
                     code = 3
             os._exit(code)
         os.close(wfd)
+        data = ""
+        timed_out = False
+        deadline = time.time() + float(job.get("child_timeout", 240))
         with os.fdopen(rfd) as rd:
-            data = rd.read()
+            while True:
+                left = deadline - time.time()
+                if left <= 0:
+                    timed_out = True
+                    break
+                ready, _, _ = select.select([rd], [], [], left)
+                if not ready:
+                    timed_out = True
+                    break
+                chunk = os.read(rd.fileno(), 1 << 16)
+                if not chunk:
+                    break
+                data += chunk.decode()
+        if timed_out:
+            try:
+                os.kill(pid, 9)
+            except OSError:
+                pass
         _, st = os.waitpid(pid, 0)
-        if st != 0 or not data:
+        if timed_out:
+            # the harness (fork) could not deliver: the caller re-executes this transition in a fresh process
+            children[ev] = {"ev": ev, "status": "fork-timeout", "outs": {}, "within": [], "key": None, "changed": []}
+        elif st != 0 or not data:
             children[ev] = {"ev": ev, "status": "crash", "wait": st, "outs": {}, "within": [], "key": None,
                             "changed": []}
         else:
@@ -897,6 +922,24 @@ def _expand(job):
         inproc = run_event(job["verify"])
         inproc["key"] = state_key()[0]
     return {"steps": steps, "root_key": root_key, "children": children, "inproc": inproc}
+
+
+def tree_fingerprint():
+    """(size, mtime) of every loaded onnxscript source file: goldens and executions must see the same code"""
+    h = hashlib.sha256()
+    for name in sorted(sys.modules):
+        if name == "onnxscript" or name.startswith("onnxscript."):
+            f = getattr(sys.modules[name], "__file__", None)
+            if f:
+                try:
+                    st = os.stat(f)
+                    h.update(f"{f}|{st.st_size}|{st.st_mtime_ns}\n".encode())
+                except OSError:
+                    h.update(f"{f}|missing\n".encode())
+    return h.hexdigest()[:16]
+
+
+TREE = tree_fingerprint()  # taken once, right after import and before any event (events may import lazily)
 
 
 def main():
@@ -921,6 +964,7 @@ def main():
     else:
         raise SystemExit(f"unknown mode {mode}")
     res["hashseed"] = os.environ.get("PYTHONHASHSEED")
+    res["tree"] = TREE
     res["onnxscript"] = os.path.dirname(onnxscript.__file__)
     with os.fdopen(out_fd, "w") as f:
         f.write(json.dumps(res, default=repr))
